@@ -47,6 +47,7 @@ func runC14(w *World) {
 	// healthy sinks for the webhook endpoints the programs register
 	w.addWebhook("hook0.sim:80", nil)
 	w.addWebhook("hook1.sim:80", nil)
+	w.addWebhook("hook2.sim:80", nil)
 	inst := n.start()
 	if !inst.ready() {
 		w.harnessErr("node did not start")
@@ -97,7 +98,7 @@ func runC14(w *World) {
 		return p
 	})
 	a := w.addActor(n, "127.0.0.1:50001", prog)
-	a.onReply = func(op *Op) { hc.onReply(op, a.end.c.id) }
+	a.onReply = func(op *Op) { hc.onReply(op, a.end.c.name) }
 	// a live fence over the whole collection observes every delete
 	var fence *Actor
 	if w.knob("fence", 2) == 1 {
